@@ -2,6 +2,7 @@ import NanoVerif.Proofs.WLearnerBrute
 import NanoVerif.Proofs.WLearnerTreeLeaves
 import NanoVerif.Proofs.WLearnerKBestPredict
 import NanoVerif.Proofs.WLearnerKSplitPredict
+import NanoVerif.Proofs.WLearnerGen
 import Mathlib.Algebra.Order.Field.Rat
 import Mathlib.Tactic.NormNum
 /-!
@@ -20,6 +21,33 @@ import Mathlib.Tactic.NormNum
     the result independent of the thread assignment (ties included: `min_reduce_feature` breaks them by the feature index;
     `table_fit_assignment_independent`: the table learners' lexicographic caches need no order hypothesis;
     `old_fit_assignment_dependent`: the score-only rule before commit 62472c9 did depend on it).
+
+  ## Translation round: model text regenerated from the C++ source on every check
+  `tools/props/c10_translate.py` extracts the functions below BY NAME from the tree under check and writes `Gen/WLearnerCriterion.lean`,
+  `Gen/WLearnerAccumulator.lean`, `Gen/WLearnerSweep.lean`, `Gen/WLearnerTable.lean`; `Proofs/WLearnerGen.lean` proves the hand-written text of `Model/WLearner.lean`
+  equal to the generated one (all obligations; for EVERY scalar type with the model's operations — so also at `Float`, where the driver
+  runs — except the theorems marked (F), which need a linear ordered field).
+  | C++ (file: function)                                              | generated                         | model definition = generated (theorem) |
+  |-------------------------------------------------------------------|-----------------------------------|-----------------------------------------|
+  | criterion.h: `enum class wlearner_criterion`                      | `Criterion`                       | `Crit.toGen`, wire code = declaration index (`model_crit_code_is_generated`) |
+  | core/stats.h: `AIC`, `AICc`, `BIC` (asserts → `AICAsserts`, `BICAsserts`) | `AIC`, `AICc`, `BIC`       | `aic`, `aicc`, `bic` (`model_aic_is_generated`) |
+  | criterion.cpp: `make_score` (floor `ε·1e+3`, `switch`)             | `scoreFloor`, `makeScore`         | `makeScore` (`model_score_is_generated`); the driver's `clampK` IS `scoreFloor 2^-52` |
+  | accumulator.h: `fit_constant`, `rss_zero`, `rss_constant`          | `fitConstant`, `rssZeroTerm`, `rssConstantTerm` | `fitConstant` (`model_fitConstant_is_generated`), `vsum ms.r2` (`model_affineCand_is_generated`); `rss_constant` has no caller in the library |
+  | accumulator.h: `update(vgrad)`, `update(value, vgrad)`             | `upd0_x0/r1/r2`, `upd_x1/x2/rx`   | `Mom.upd0`, `Mom.upd` (`model_upd_moments_is_generated`, `model_upd_residuals_is_generated` (F): gradient vs residual form) |
+  | affine.cpp: `cache_t::constant`, `w`, `b`, `rss_affine`, `score` (rss, k) | `constant`, `w`, `b`, `rssAffineTerm`, `affineRss`, `affineK` | `affineConst`, `affineW`, `affineB`, `affineRss`, `affineCand` (`model_affineConst/W/B/Rss/Cand_is_generated`) |
+  | affine.cpp / hinge.cpp: `do_predict` element `w * value + b`       | `affinePredict`, `hingePredict`   | `lin` (`model_lin_is_generated`) |
+  | stump.cpp: `::score`, `x0_pos/r1_pos/r2_pos`, `output_neg/pos`, `cache_t::score` (rss, k) | `stumpScoreTerm`, `stump_*_pos`, `stumpOutput_*`, `stumpRss`, `stumpK` | `sideScore`, `Mom.sub`, `stumpCand` (`model_sideScore/momSub/stumpCand_is_generated`) |
+  | stump.cpp / hinge.cpp `do_fit`: `if (ivalue1.first < ivalue2.first)`, `0.5 * (ivalue1.first + ivalue2.first)`, `if (std::isfinite(score) && score < cache.m_score)` | `stump/hingeDistinct`, `stump/hingeThreshold`, `stump/hingeAccept` | `sweep`, `pick` (`model_sweep_is_generated_stump/_hinge`, `model_pick_is_generated`) |
+  | stump.cpp: `do_predict` (`value < m_threshold ? lo : hi`), `split` (`? 0 : 1`) | `stumpPredict`, `stumpGroup` | `eval (.stump …)` (`model_stump_predict_is_generated`) |
+  | hinge.cpp: `::beta`, `::score`, `*_pos`, `score_neg/score_pos` (both overloads: rss, k), second table row `-threshold * array(0)` | `hingeBeta`, `hingeScoreTerm`, `hinge_*_pos`, `hingeScore_*`, `hingeRss_*`, `hingeK_*`, `hingeIntercept` | `hingeBeta`, `hingeSide`, `hingeCands` (`model_hingeBeta/hingeSide/hingeCands_is_generated`) |
+  | hinge.cpp: `do_predict` conditions `value < m_threshold` / `value >= m_threshold` | `hingeActive_left/right` | `eval (.hinge …)` (`model_hinge_predict_is_generated` (F)) |
+  | table.cpp: `cache_t::score(bin)`, `score_dense / score_kbest / score_ksplit` (k, table rows, per-cluster RSS, the acceptance rule `std::isfinite(score) && (score < m_score \|\| (score == m_score && feature < m_feature))`), accumulator.cpp: the key of `accumulator_t::sort` | `Gen/WLearnerTable.lean`: `binScoreTerm`, `denseK/kbestK/ksplitK`, `denseRow/kbestRow`, `ksplitScoreTerm`, `tableAccept`, `binDelta` | `binScore`, `binMean`, `binDelta`, `cluScore`, `denseCand`, `kbestCandOf`, `ksplitCands`, `pickLex` (`model_binScore/cluScore/tableK_is_generated`, `model_pickLex_is_generated` (F)) |
+  Shape checks without a generated definition (a different text is `vlib.Broken("translate")`): the sample count `n` handed to `make_score`
+  (a `double` sum cast to an integer; `Nat` in the model), `return make_score(criterion, rss, k, n)`, the arguments of the `::score` / `::beta`
+  calls, `ivalue1/2 = m_ivalues[iv + 0/1]`, the running `m_acc_neg.update` before the distinct-values rule, which table row gets which output.
+  Hand-written still (tied by the differential run only): the loops of table.cpp (bins, prefix sums of the sorted deltas, the sorted kept bins,
+  `update`, `process`), dtree.cpp, `accumulator_t::cluster`, the `std::sort` of `accumulator_t::sort`,
+  `min_reduce_feature`, hashes, `scale` / `merge` of util.cpp, the loops around the element formulas (`clear`, the `loop_scalar` plumbing).
 -/
 set_option linter.unusedSectionVars false
 set_option linter.unusedVariables false
